@@ -28,6 +28,7 @@ pub fn dispatch(mode: &str, kind: &str, _input: Option<&Value>) -> Option<Value>
         "restore_sandbox" => restore_sandbox,
         "resume_no_rewrite" => resume_no_rewrite,
         "determinism_replay" => determinism_replay,
+        "delete_unsorted" => delete_unsorted,
         _ => return None,
     };
     if mode != "search" && mode != "replay" {
@@ -260,6 +261,49 @@ fn resume_no_rewrite() -> Result<Option<Value>, String> {
                     "0 blocks written: everything the interrupted run stored is reused",
                     "a backup resumed after an interruption stored again content that was already in the archive");
             }
+        }
+        Ok(None)
+    })
+}
+
+// ---------------------------------------------------------------------------------------------- C05
+/// Three versions, each adding one large file (its own block); delete the newest and the oldest in ONE call,
+/// named newest first.  Afterwards exactly b0001 is listed, it restores identically, every present block is
+/// referenced by it and no unreferenced block remains; a dry run before that changes nothing.
+fn delete_unsorted() -> Result<Option<Value>, String> {
+    let tmp = tempfile::tempdir().map_err(|e| e.to_string())?;
+    let src = tmp.path().join("src");
+    let rt = tokio::runtime::Runtime::new().map_err(|e| e.to_string())?;
+    rt.block_on(async {
+        let apath = tmp.path().join("archive");
+        let archive = Archive::create_path(&apath).await.map_err(|e| e.to_string())?;
+        let opts = || BackupOptions { small_file_cap: 10, ..BackupOptions::default() };
+        for (i, name) in ["one", "two", "three"].iter().enumerate() {
+            write_tree(&src, &[(name, 500 + i)])?;
+            conserve::backup(&archive, &src, &opts(), Arc::new(VoidMonitor)).await.map_err(|e| e.to_string())?;
+        }
+        let before = block_files(&apath).len();
+        let del = [BandId::new(&[2]), BandId::new(&[0])];
+        archive.delete_bands(&del, &conserve::DeleteOptions { dry_run: true, break_lock: false }, Arc::new(VoidMonitor)).await.map_err(|e| e.to_string())?;
+        if block_files(&apath).len() != before || archive.list_band_ids().await.map_err(|e| e.to_string())?.len() != 3 {
+            return found("delete_unsorted", json!({"delete": ["b0002", "b0000"], "dry_run": true}), "a dry run removed something".into(), "nothing changes", "delete --dry-run changed the archive");
+        }
+        archive.delete_bands(&del, &conserve::DeleteOptions { dry_run: false, break_lock: false }, Arc::new(VoidMonitor)).await.map_err(|e| e.to_string())?;
+        let ids: Vec<String> = archive.list_band_ids().await.map_err(|e| e.to_string())?.iter().map(|b| b.to_string()).collect();
+        if ids != vec!["b0001".to_string()] {
+            return found("delete_unsorted", json!({"delete": ["b0002", "b0000"]}), format!("versions left: {ids:?}"), "[b0001]", "delete did not remove exactly the requested versions");
+        }
+        let archive = Archive::open_path(&apath).await.map_err(|e| e.to_string())?;
+        let unref = archive.unreferenced_blocks(Arc::new(VoidMonitor)).await.map_err(|e| e.to_string())?;
+        if !unref.is_empty() {
+            return found("delete_unsorted", json!({"delete": ["b0002", "b0000"]}), format!("{} unreferenced block(s) remain after the delete ({} block files)", unref.len(), block_files(&apath).len()),
+                "no unreferenced block remains", "deleting versions named in non-ascending order left garbage blocks behind");
+        }
+        let dest = tmp.path().join("dest");
+        let monitor = TestMonitor::arc();
+        conserve::restore(&archive, &dest, RestoreOptions::default(), monitor.clone()).await.map_err(|e| e.to_string())?;
+        if !monitor.take_errors().is_empty() || !dest.join("one").exists() || !dest.join("two").exists() || dest.join("three").exists() {
+            return found("delete_unsorted", json!({"delete": ["b0002", "b0000"]}), "the kept version b0001 does not restore as before".into(), "b0001 restores exactly", "delete harmed a kept version");
         }
         Ok(None)
     })
